@@ -46,7 +46,7 @@ PROFILES = {
         "validate_rerun": 6, "validate_optional": 5, "save": 6, "load": 4,
         "restart": 4, "set_values": 3, "rename": 2, "lookalike_prop": 4, "damage_file": 3,
         "set_link": 3,
-    }, fault_share=0.25, detached_share=0.25),
+    }, fault_share=0.25, detached_share=0.25, save_only_backends=("rdf",)),
 }
 MONITORS = [mon_valid]
 XPROC_EVERY = 2
